@@ -129,10 +129,14 @@ func runC03(r *mc.Run) {
 		return world.MakeCert(world.CertSpec{CN: world.CNTcb, Key: F.TcbKey, NotBefore: world.T0.AddDate(0, 0, nbDays), NotAfter: world.T0.AddDate(0, 0, naDays)}, root, F.RootKey)
 	}
 	fTcb := func(nbDays, naDays int) *x509.Certificate { return fTcbUnder(F.Root, nbDays, naDays) }
+	otherRoleKey := world.NewKey("T/other-role-signer")
+	nameVariant := func(cn string) *x509.Certificate {
+		return world.MakeCert(world.CertSpec{CN: cn, Key: otherRoleKey}, w.PKI.Root, w.PKI.RootKey)
+	}
 	signers := []struct {
 		name string
 		key  *world.Key
-	}{{"tcb", w.PKI.TcbKey}, {"clone.tcb", Fc.TcbKey}, {"F.tcb", F.TcbKey}, {"inter", w.PKI.InterKey}, {"leaf", w.PKI.LeafKey}, {"root", w.PKI.RootKey}, {"tcb-by-inter", world.NewKey("T/tcb-by-inter")}}
+	}{{"tcb", w.PKI.TcbKey}, {"clone.tcb", Fc.TcbKey}, {"F.tcb", F.TcbKey}, {"inter", w.PKI.InterKey}, {"leaf", w.PKI.LeafKey}, {"root", w.PKI.RootKey}, {"tcb-by-inter", world.NewKey("T/tcb-by-inter")}, {"other-role-key", otherRoleKey}}
 	chains := []struct {
 		name  string
 		certs []*x509.Certificate
@@ -159,6 +163,15 @@ func runC03(r *mc.Run) {
 		{"F[tcb-not-yet-valid,root-not-yet-valid]", []*x509.Certificate{fTcbUnder(fRoot(1, 3650), 1, 3650), fRoot(1, 3650)}},
 		{"F[tcb,root-expired]", []*x509.Certificate{fTcbUnder(fRoot(-3650, -1), -30, 3650), fRoot(-3650, -1)}},
 		{"[F.tcb-not-yet-valid,root]", []*x509.Certificate{fTcb(1, 3650), w.PKI.Root}},
+		// certificates the trusted root really issued, for a name that is not the TCB-signing role's (but
+		// close to it); chosen together with the matching signer key below
+		{"[tcb-UPPERCASE,root]", []*x509.Certificate{nameVariant("INTEL SGX TCB SIGNING"), w.PKI.Root}},
+		{"[tcb-lowercase-word,root]", []*x509.Certificate{nameVariant("Intel SGX TCB signing"), w.PKI.Root}},
+		{"[tcb-double-space,root]", []*x509.Certificate{nameVariant("Intel SGX  TCB Signing"), w.PKI.Root}},
+		{"[tcb-leading-space,root]", []*x509.Certificate{nameVariant(" Intel SGX TCB Signing"), w.PKI.Root}},
+		{"[tcb-suffix,root]", []*x509.Certificate{nameVariant("Intel SGX TCB Signing CA"), w.PKI.Root}},
+		// the genuine signer key and name, but certified by the root for an unrelated purpose only
+		{"[tcb-eku-code-signing,root]", []*x509.Certificate{world.MakeCert(world.CertSpec{CN: world.CNTcb, Key: w.PKI.TcbKey, ExtKeyUsage: []x509.ExtKeyUsage{x509.ExtKeyUsageCodeSigning}}, w.PKI.Root, w.PKI.RootKey), w.PKI.Root}},
 	}
 	bound := 2
 	if r.Thorough() {
